@@ -109,6 +109,17 @@ pub fn case(rng: &mut Rng, out: &mut Out) {
             // after the ff tokens the rest of the forced text is still pending, nothing lost or invented,
             // and every token the next mask offers agrees with that pending text
             if !fft.is_empty() {
+                // consume_ff_tokens = compute_ff_tokens followed by committing them
+                let mut cf = m.deep_clone();
+                let took = cf.consume_ff_tokens();
+                let mut one = m.deep_clone();
+                let fine = fft.iter().all(|&t| one.consume_token(t).is_ok());
+                if took != fft {
+                    viol.push(format!("consume_ff_tokens returned {took:?} but compute_ff_tokens {fft:?}"));
+                } else if fine && (cf.is_stopped() != one.is_stopped() || (!one.is_stopped() && cf.compute_ff_bytes() != one.compute_ff_bytes())
+                    || (!one.is_stopped() && cf.compute_mask().ok().map(|v| mask_list(&v)) != one.compute_mask().ok().map(|v| mask_list(&v)))) {
+                    viol.push(format!("the state after consume_ff_tokens differs from the state after committing {fft:?} one by one"));
+                }
                 let mut c = m.deep_clone();
                 if fft.iter().all(|&t| c.consume_token(t).is_ok()) && !c.is_stopped() {
                     let pending = c.compute_ff_bytes();
